@@ -11,7 +11,7 @@ RULE = ("fault enumeration: every single-fault mutation of a valid call from the
         "re-valued feature coordinate, dropped variable, shorter/longer list, unknown mode labels with normalized on/off, unequal "
         "sample counts) x model class, plus the explicitly valid variations that must be ACCEPTED; quick = stratified sample, thorough = "
         "the full taxonomy x classes; distinct by (fault, class)")
-EXHAUSTIVE = {"quick": False, "thorough": True}
+EXHAUSTIVE = {"quick": True, "thorough": True}
 FAULTS = ["numpy_input", "list_of_numpy", "none_input", "unknown_dim", "empty_dim", "all_dims_sample", "dim_wrong_type",
           "n_modes_zero", "n_modes_negative", "n_modes_float_gt1", "n_modes_str", "n_modes_none", "n_modes_list", "n_modes_gt_rank",
           "alpha_negative", "unknown_solver",
@@ -51,7 +51,8 @@ def cases(seed, tier, broken=()):
     rng = np.random.default_rng(seed)
     out = []
     allc = [(f, c) for c in CLASSES for f in FAULTS + VALID if applicable(f, c)]
-    if tier == "thorough":
+    if tier in ("thorough", "quick", "search"):
+        # the whole fault taxonomy x class table is small (a few hundred calls, ~10 s): every tier enumerates it completely
         sel = allc
     else:
         # every fault at least once (rotating classes) + a random sample
